@@ -33,9 +33,19 @@ import (
 
 // callFrame: one call that enters the followed function (or closure instance).
 type callFrame struct {
-	site ssa.CallInstruction
-	env  rowEnv    // the callee is a member of the current row of a table: the row that holds the followed value
-	inst *frameSet // the site lies in the body of a closure that runs as one particular instance: the calls of that instance
+	site  ssa.CallInstruction
+	env   rowEnv       // the callee is a member of the current row of a table: the row that holds the followed value
+	inst  *frameSet    // the site lies in the body of a closure that runs as one particular instance: the calls of that instance
+	bound ssa.Value    // the followed function is a method entered through a method value (x.m): x, the receiver it was bound to
+	lrow  *localRowRef // the callee is a member of an element of a table local to a function: the row that holds the followed value
+}
+
+// args: the arguments of the followed function at this call, the receiver of a method value included.
+func (fr callFrame) args() []ssa.Value {
+	if fr.bound == nil {
+		return fr.site.Common().Args
+	}
+	return append([]ssa.Value{fr.bound}, fr.site.Common().Args...)
 }
 
 type frameSet struct {
@@ -60,11 +70,13 @@ type fvFollower struct {
 	seen  map[fvSeenKey]bool
 	steps int
 	depth int
+	bound ssa.Value // following a method value: the receiver
 }
 
 var (
 	fnUsesMemo      map[*ssa.Function][]ssa.Instruction
 	fnSynthUseMemo  map[*ssa.Function]bool
+	fnBoundMemo     map[*ssa.Function]*ssa.Function // method -> the wrapper that stands for its method values
 	framesOfFuncMem = map[*ssa.Function]*frameSet{}
 )
 
@@ -75,6 +87,7 @@ func (w *World) fnUses() (map[*ssa.Function][]ssa.Instruction, map[*ssa.Function
 	}
 	uses := map[*ssa.Function][]ssa.Instruction{}
 	synth := map[*ssa.Function]bool{}
+	fnBoundMemo = map[*ssa.Function]*ssa.Function{}
 	var ops []*ssa.Value
 	for _, fn := range w.repoFuncsWithBodies() {
 		wrapper := fn.Synthetic != "" && !strings.HasPrefix(fn.Name(), "init") && !strings.Contains(fn.Synthetic, "instan")
@@ -102,6 +115,31 @@ func (w *World) fnUses() (map[*ssa.Function][]ssa.Instruction, map[*ssa.Function
 				}
 				if !dup {
 					uses[f] = append(uses[f], ins)
+				}
+			}
+		})
+	}
+	// the wrappers go/ssa makes for methods belong to no package: the wrapper of a method value (x.m) only forwards to the method,
+	// with the captured receiver - the method is entered wherever the closures made of the wrapper are called; any other wrapper
+	// (promotion through an embedding, pointer receiver for an interface, method expression) is a use that is not followed
+	for fn := range w.allFuncs {
+		if fn.Synthetic == "" || fn.Blocks == nil || pkgOfFunc(fn) != nil {
+			continue
+		}
+		if strings.HasPrefix(fn.Synthetic, "bound method wrapper") {
+			if tgt := unwrapBound(fn); tgt != fn && tgt.Signature.Recv() != nil && w.isRepoLike(tgt) {
+				fnBoundMemo[tgt] = fn
+			}
+			continue
+		}
+		forEachInstr(fn, func(_ *ssa.BasicBlock, ins ssa.Instruction) {
+			ops = ins.Operands(ops[:0])
+			for _, op := range ops {
+				if op == nil || *op == nil {
+					continue
+				}
+				if f, ok := (*op).(*ssa.Function); ok && f.Signature.Recv() != nil && w.isRepoLike(f) {
+					synth[f] = true
 				}
 			}
 		})
@@ -139,8 +177,42 @@ func (w *World) callFrames(fn *ssa.Function) *frameSet {
 	}
 	fs := &frameSet{}
 	framesOfFuncMem[fn] = fs // a cycle (recursion through a function value) reads "not known"
-	if fn == nil || fn.Signature.Recv() != nil || (fn.Origin() != nil && fn.Origin() != fn) {
-		return fs // methods are entered through interfaces and method values as well: not followed here
+	if fn == nil || (fn.Origin() != nil && fn.Origin() != fn) {
+		return fs
+	}
+	if fn.Signature.Recv() != nil {
+		// a method is entered by name, through its method values and through interfaces: followed when no value of the receiver's
+		// type is ever put into an interface (no dynamic dispatch can reach it)
+		if fn.Blocks == nil || w.boxedReceiver(fn) {
+			return fs
+		}
+		uses, synth := w.fnUses()
+		if synth[fn] {
+			return fs // promoted through an embedding, a method expression
+		}
+		fl := &fvFollower{w: w, out: &frameSet{ok: true}, seen: map[fvSeenKey]bool{}}
+		fl.follow(fn, uses[fn], fvCtx{})
+		if bw := fnBoundMemo[fn]; bw != nil && fl.out.ok {
+			if synth[bw] {
+				fl.out.ok = false
+			}
+			for _, u := range uses[bw] {
+				mc, isMC := u.(*ssa.MakeClosure)
+				if !isMC || mc.Fn != ssa.Value(bw) || len(mc.Bindings) != 1 {
+					fl.out.ok = false
+					break
+				}
+				sub := &fvFollower{w: w, out: &frameSet{ok: true}, seen: map[fvSeenKey]bool{}, bound: mc.Bindings[0]}
+				sub.follow(mc, refsOf(mc), fvCtx{})
+				if !sub.out.ok {
+					fl.out.ok = false
+					break
+				}
+				fl.out.frames = append(fl.out.frames, sub.out.frames...)
+			}
+		}
+		*fs = *fl.out
+		return fs
 	}
 	fl := &fvFollower{w: w, out: &frameSet{ok: true}, seen: map[fvSeenKey]bool{}}
 	if parent := fn.Parent(); parent != nil {
@@ -215,7 +287,7 @@ func (fl *fvFollower) follow(v ssa.Value, users []ssa.Instruction, ctx fvCtx) {
 				return
 			}
 			if cc.Value == v {
-				fl.out.frames = append(fl.out.frames, callFrame{site: x, inst: ctx.inst})
+				fl.out.frames = append(fl.out.frames, callFrame{site: x, inst: ctx.inst, bound: fl.bound})
 			}
 			for p, a := range cc.Args {
 				if a != v {
@@ -240,6 +312,18 @@ func (fl *fvFollower) follow(v ssa.Value, users []ssa.Instruction, ctx fvCtx) {
 			case *ssa.FieldAddr:
 				g, row, field, ok := fl.w.rowSlotOfStore(x)
 				if !ok {
+					// a table that is local to the function: a literal of records that is only walked
+					if lt, lrow, lfield, isLocal := fl.w.localRowSlot(x); isLocal {
+						calls, known := lt.memberCalls(lfield)
+						if !known {
+							fl.fail()
+							return
+						}
+						for _, c := range calls {
+							fl.out.frames = append(fl.out.frames, callFrame{site: c.site, inst: ctx.inst, bound: fl.bound, lrow: &localRowRef{lt, lrow, lfield, c.elem}})
+						}
+						continue
+					}
 					fl.fail()
 					return
 				}
@@ -249,7 +333,7 @@ func (fl *fvFollower) follow(v ssa.Value, users []ssa.Instruction, ctx fvCtx) {
 					return
 				}
 				for _, s := range sites {
-					fl.out.frames = append(fl.out.frames, callFrame{site: s, env: rowEnv{g: row}})
+					fl.out.frames = append(fl.out.frames, callFrame{site: s, env: rowEnv{g: row}, bound: fl.bound})
 				}
 			default:
 				fl.fail()
@@ -654,7 +738,7 @@ func (w *World) holdsAtEveryFrame(fs *frameSet, idx int, check func(fr callFrame
 		return false
 	}
 	for _, fr := range fs.frames {
-		args := fr.site.Common().Args
+		args := fr.args()
 		if fr.site.Common().IsInvoke() || idx >= len(args) {
 			return false
 		}
@@ -738,6 +822,138 @@ func (w *World) guardedByPathAtFrames(fn *ssa.Function, v ssa.Value, path string
 		return w.guardedByRowPredicate(fr, arg, suffix, ctxs)
 	}
 	return w.holdsAtEveryFrame(w.callFrames(fn), idx, check, nil, 0)
+}
+
+// guardedByRecordPathAtFrames: the access path starts at a member of a record the function was handed by value (a parameter, the
+// receiver; for a closure: of the function that made it) and never changes; at every call that can enter that function the same
+// member of the argument is under a non-nil test of the path: a dominating test at the call, or - the function being called as a
+// member of a row of a local table - the flag that sits beside it in the same row, which the call is made under and which the row's
+// literal computed as that very test.
+func (w *World) guardedByRecordPathAtFrames(v ssa.Value, path string, ctxs map[string]*CtxInfo) bool {
+	ld, ok := w.accessRoot(v, ctxs, 0).(*ssa.UnOp)
+	if !ok {
+		return false
+	}
+	al, k, ok := recordMemberRoot(ld)
+	if !ok {
+		return false
+	}
+	prefix := fmt.Sprintf("%p", ssa.Value(al))
+	member := fmt.Sprintf("#%d", k)
+	if !strings.HasPrefix(path, prefix+member) {
+		return false
+	}
+	suffix := strings.TrimPrefix(path, prefix)
+	owner := al.Parent()
+	idx := paramIndex(owner, unchangedParamRecord(al))
+	if idx < 0 {
+		return false
+	}
+	check := func(fr callFrame, arg ssa.Value) bool {
+		want := w.accessPath(arg, ctxs, 0) + suffix
+		return w.guardedByPath(fr.site.Block(), want, ctxs) || w.guardedByRowFlag(fr, want, ctxs)
+	}
+	return w.holdsAtEveryFrame(w.callFrames(owner), idx, check, nil, 0)
+}
+
+// guardedByRowFlag: the frame calls member A of an element of a local table under an edge of a test of the bool member G of the same
+// element; in the row that holds the followed function the literal computes G as a nil test of `want`, and the edge is the one on
+// which the node is there.
+func (w *World) guardedByRowFlag(fr callFrame, want string, ctxs map[string]*CtxInfo) bool {
+	lr := fr.lrow
+	if lr == nil || lr.row < 0 || lr.row >= len(lr.table.rows) {
+		return false
+	}
+	for _, rd := range lr.table.reads {
+		if rd.field == lr.field || !sameLocalElem(rd.elem, lr.elem) || !isBoolType(rd.v.Type()) {
+			continue
+		}
+		flag := lr.table.rows[lr.row][rd.field]
+		if flag == nil {
+			continue
+		}
+		x, nn, isNilTest := nilTest(flag)
+		if !isNilTest || w.accessPath(x, ctxs, 0) != want {
+			continue
+		}
+		for _, bb := range fr.site.Parent().Blocks {
+			cond := branchCond(bb)
+			if cond == nil {
+				continue
+			}
+			neg := false
+			for {
+				if u, isU := cond.(*ssa.UnOp); isU && u.Op == token.NOT {
+					neg, cond = !neg, u.X
+					continue
+				}
+				break
+			}
+			if cond != rd.v {
+				continue
+			}
+			// the flag is true where the node is there (nn == 0): the edge on which the flag is true; and the other way round
+			succ := nn
+			if neg {
+				succ = 1 - nn
+			}
+			if edgeDominates(bb, succ, fr.site.Block()) {
+				return true
+			}
+		}
+	}
+	return false
+}
+
+var boxedTypesMemo map[*types.TypeName]bool
+
+// boxedReceiver: a value of the method's receiver type (or a pointer to one, or a record that embeds it) is put into an interface
+// somewhere in the repository: the method can be entered by dynamic dispatch.
+func (w *World) boxedReceiver(fn *ssa.Function) bool {
+	if boxedTypesMemo == nil {
+		boxedTypesMemo = map[*types.TypeName]bool{}
+		var mark func(t types.Type, depth int)
+		mark = func(t types.Type, depth int) {
+			if depth > 4 {
+				return
+			}
+			if pt, ok := t.(*types.Pointer); ok {
+				t = pt.Elem()
+			}
+			n := namedOf(t)
+			if n == nil {
+				return
+			}
+			boxedTypesMemo[n.Obj()] = true
+			if st, ok := n.Underlying().(*types.Struct); ok {
+				for i := 0; i < st.NumFields(); i++ {
+					if st.Field(i).Embedded() {
+						mark(st.Field(i).Type(), depth+1)
+					}
+				}
+			}
+		}
+		for fn := range w.allFuncs {
+			if fn.Blocks == nil {
+				continue
+			}
+			forEachInstr(fn, func(_ *ssa.BasicBlock, ins ssa.Instruction) {
+				if mi, ok := ins.(*ssa.MakeInterface); ok {
+					mark(mi.X.Type(), 0)
+				}
+			})
+		}
+	}
+	recv := fn.Signature.Recv()
+	if recv == nil {
+		return false
+	}
+	t := recv.Type()
+	if pt, ok := t.(*types.Pointer); ok {
+		t = pt.Elem()
+	}
+	n := namedOf(t)
+	return n == nil || boxedTypesMemo[n.Obj()]
 }
 
 // guardedByRowPredicate: the frame calls member A of the current row of a table with `node`, under the true edge of a call of another
